@@ -130,6 +130,8 @@ type lfWorld struct {
 	gatePolicy func(a *lfActor, hook, msg string) bool
 	// postExitHook runs at the end of PostStop (before the exit is logged) on the stopping goroutine.
 	postExitHook func(a *lfActor)
+	// beforeStep runs at the start of every step (e.g. to refresh name -> PID tracking).
+	beforeStep func()
 	// afterStep runs after every fired event (after quiescence), before the invariants.
 	afterStep func()
 	// pids of interest (actors whose stop lock matters), maintained by the scenario.
@@ -168,6 +170,33 @@ type lfActor struct {
 	inc  int
 	// preErr, when set, makes PreStart fail.
 	preErr error
+	// self is the PID of this instance, learnt when PostStart is delivered (i.e. the spawn's init
+	// succeeded); postStarted/postStopping track "running" = PostStart delivered and PostStop not begun.
+	self         *PID
+	postStarted  bool
+	postStopping bool
+}
+
+// noteStarted records that PostStart was delivered to (or enqueued for) the instance.
+func (w *lfWorld) noteStarted(a *lfActor, self *PID) {
+	w.mu.Lock()
+	a.self = self
+	a.postStarted = true
+	a.postStopping = false
+	w.mu.Unlock()
+}
+
+// runningInstances returns the instances (optionally of one logical name) that are running.
+func (w *lfWorld) runningInstances(name string) []*lfActor {
+	w.mu.Lock()
+	defer w.mu.Unlock()
+	var out []*lfActor
+	for _, a := range w.actors {
+		if (name == "" || a.name == name) && a.postStarted && !a.postStopping {
+			out = append(out, a)
+		}
+	}
+	return out
 }
 
 func lfGoid() uint64 {
@@ -358,6 +387,7 @@ func (a *lfActor) Receive(ctx *ReceiveContext) {
 	switch x := ctx.Message().(type) {
 	case *PostStart:
 		label = "poststart"
+		w.noteStarted(a, ctx.Self())
 	case *lfMsg:
 		label = x.label
 		m = x
@@ -381,6 +411,9 @@ func (a *lfActor) Receive(ctx *ReceiveContext) {
 func (a *lfActor) PostStop(*Context) error {
 	w := a.w
 	inc := a.curInc()
+	w.mu.Lock()
+	a.postStopping = true
+	w.mu.Unlock()
 	w.logEv(lfEv{kind: lfPostEnter, actor: a.name, inst: a.inst, inc: inc, path: lfStopPath(w.sys)})
 	w.wait(a, "post", "", false)
 	if w.postExitHook != nil {
@@ -572,6 +605,9 @@ func (w *lfWorld) gateSafe(g *lfGate) bool {
 //   - gateOK: optional extra filter for gate releases.
 func (w *lfWorld) loop(c *vsched.Chooser, maxSteps int, extra func() []lfEvent, inv func() []vsched.Violation, gateOK func(g *lfGate) bool) {
 	for step := 0; step < maxSteps; step++ {
+		if w.beforeStep != nil {
+			w.beforeStep()
+		}
 		var evs []lfEvent
 		for _, op := range w.ops {
 			if op.started {
